@@ -304,7 +304,7 @@ def file_cases():
 
 def shards(tier, seed):
     out = [("view", k, 8) for k in range(8)]
-    out += [("bodies",)]
+    out += [("bodies",), ("sequences",)]
     out += [("small", k, 8) for k in range(8)]
     out += [("streams",), ("files",)]
     out += [("apps", name) for name in ("mounts", "hosts", "middleware-over-mounts", "files-handle404", "pages-private")]
@@ -326,6 +326,25 @@ def run_shard(desc, tier):
         for bk, areq in body_requests():
             compare(r, f"echo-body:{bk}", apps, areq, f"POST {bk} body in chunks {[len(c) for c in areq.chunks]}")
         r.sample({"recipe": "echo view with body", "body_kind": "multipart2", "chunking": "every two-way split"})
+    elif kind == "sequences":
+        from . import c10
+        for bk, (B, ct) in c10.KINDS.items():
+            chunks = [B[:len(B) // 2], B[len(B) // 2:]] if len(B) > 1 else [B]
+            for n in (1, 2, 3):
+                for seq in itertools.product(c10.ACCESSES, repeat=n):
+                    if "stream_first" in seq:
+                        continue  # the first chunk depends on the gateway's chunking, not on baize
+                    res = {}
+                    for iface in ("wsgi", "asgi"):
+                        probs, key, results = c10.run_sequence(iface, bk, chunks, seq, None)
+                        res[iface] = [x if x[0] != "form" else ("form", [tuple(i) if isinstance(i, list) else i for i in x[1]]) for x in results]
+                    r.count("evaluations")
+                    r.count("distinct_nontrivial")
+                    if res["wsgi"] != res["asgi"]:
+                        i = next(j for j, (a, b) in enumerate(zip(res["wsgi"], res["asgi"])) if a != b) if len(res["wsgi"]) == len(res["asgi"]) else min(len(res["wsgi"]), len(res["asgi"]))
+                        r.violation(f"sequence:{seq[min(i, len(seq) - 1)]}", {"recipe": f"sequence:{bk}", "request": {"kind": bk, "seq": list(seq)}},
+                                    f"{bk} body, accesses {list(seq)}: WSGI {res['wsgi']!r:.200} vs ASGI {res['asgi']!r:.200}")
+        r.sample({"recipe": "access sequences", "example": ["body", "form", "close"]})
     elif kind == "small":
         _, k, n = desc
         from .c05 import small_recipes
@@ -401,6 +420,8 @@ def replay(w):
         fams = [("small", k, 8) for k in range(8)]
     elif fam == "stream":
         fams = [("streams",)]
+    elif fam == "sequence":
+        fams = [("sequences",)]
     elif fam == "file":
         fams = [("files",)]
     else:
